@@ -9,6 +9,7 @@ Neg1 == 0 - 1
 \* one line per transition for the replay harness
 ObservePrint(op, s2, err) == PrintT(ToJson([n |-> n, f |-> st, o |-> op, t |-> s2, e |-> err, q |-> Queries(s2)]))
 
+ObserveNone(op, s2, err) == TRUE
 \* emulsion world: two spherical droplets that overlap, a vanished one, one of another layout
 ValsEm == <<S1(2, 0), S1(1, 2), S1(0, 5), D1(1, 6, 0)>>
 ListsEm == {<<>>, <<1, 2>>, <<3, 1, 2>>, <<4>>}
@@ -35,6 +36,25 @@ OpsTc == {"EmNew", "EmIndex", "EmRemoveSmall", "Mutate", "TcNew", "TcAppend", "T
 OpsTr == {"Mutate", "TrkNew", "TrkAppend", "TrkSlice", "TrkCopy", "TrkIndex"}
 OpsIo == {"EmNew", "EmAppend", "EmRemoveSmall", "Mutate", "EmSave", "EmLoad", "TcNew", "TcAppend", "TcSave", "TcLoad", "TrkNew", "TrkSave", "TrkLoad"}
 OpsTl == {"TrkNew", "TrkAppend", "TrkSlice", "TlNew", "TlSlice", "TlRemoveShort"}
+OpsTk == {"EmNew", "TcNew", "TcAppend", "Mutate", "TlFromTc", "TrkIndex", "TlRemoveShort"}
+OpsTf == {"TrkNew", "TrkAppend", "TlNew", "TlSave", "TlLoad", "TrkLoad", "TrkSave", "Mutate", "TrkIndex"}
+\* tracking: droplets that overlap in a chain (1-2, 2-3 overlap, 1-3 touch), one far away, a diffuse one on top of 1
+M(meth, md) == [meth |-> meth, md |-> md]
+MethodsAll == {M("overlap", Neg1), M("distance", Neg1), M("distance", 2)}
+MethodsOv == {M("overlap", Neg1)}
+NoMethods == {}
+ValsTk == <<S1(2, 0), S1(1, 2), S1(1, 4), S1(1, 9), D1(1, 1, 0)>>
+ListsTk == {<<>>, <<1>>, <<1, 3>>, <<2, 4>>, <<3, 2, 5>>}
+EvListsTk == {<<1, 2>>, <<2, 1>>, <<1, 2, 3>>, <<1, 1>>}
+TimeListsTk == {<<>>, <<0, 0>>, <<2, 0 - 2>>, <<0, 1, 0>>}
+ListsTkQ == {<<1, 3>>, <<2, 4>>, <<3, 2, 5>>}
+EvListsTkQ == {<<1, 2>>, <<2, 1, 2>>}
+TimeListsTkQ == {<<>>, <<0, 0>>, <<0, 1, 0>>}
+OpsTkQ == {"EmNew", "TcNew", "TlFromTc", "TrkIndex", "Mutate"}
+ListsTfQ == {<<>>, <<1, 2>>, <<4, 2, 1>>, <<1, 3>>}
+TimeListsTfQ == {<<>>, <<0, 1, 3>>}
+TlListsTfQ == {<<1>>, <<1, 2>>, <<2, 1, 2>>}
+OpsTfQ == {"TrkNew", "TlNew", "TlSave", "TlLoad", "TrkLoad", "TrkSave"}
 TlListsA == {<<>>, <<1>>, <<1, 2>>, <<2, 1, 2>>}
 MinDursA == {Neg1, 0, 2}
 =============================================================================
